@@ -317,6 +317,66 @@ def check_open_position_tags(repo, rep):
     rep.floor(rid, 2)
 
 
+def check_open_position_exits(repo, rep):
+    rid = "C10-R5c"
+    rep.rule(rid, "exits declared before the position opens (go_long / go_short) and submitted by _on_open_position, for long/short x "
+                  "stop-loss/take-profit x every relation of the declared price to the entry (= current) price: exactly one order per "
+                  "row, reduce-only, on the closing side, of the declared quantity; routed by its price relative to the current price "
+                  "(near -> MARKET, profit side -> LIMIT, loss side -> STOP) at the declared price")
+    T = {k: W.enum_value(repo, "order_types", k) for k in ("MARKET", "LIMIT", "STOP")}
+    S = {"buy": W.enum_value(repo, "sides", "BUY"), "sell": W.enum_value(repo, "sides", "SELL")}
+    for ptype, sg in (("long", 1), ("short", -1)):
+        for kind in ("stop_loss", "take_profit"):
+            for cname, pv in PRICE_CASES.items():
+                smp = {"cur": CUR, "P": F(1), "E": CUR, "q": F(2), "x": pv, "now": F(0)}
+
+                def mk(dec):
+                    it = Interp(repo, stubs=W.base_stubs(), samples=[dict(smp)], nonneg=set(smp), decisions=dec)
+                    w = build(repo, it, sg)
+                    st = w["strat"]
+                    st.attrs[kind] = st.attrs["_" + kind] = Arr2([Arr([A("q"), A("x")])])
+                    W.bind(st, "on_open_position", lambda i, a, k: None)
+                    W.bind(st, "_detect_and_handle_entry_and_exit_modifications", lambda i, a, k: None)
+                    o = W.make_order(repo, "ENTRY", "buy", "LIMIT", A("P"), A("E"))
+                    return it, lambda it: it.call(it.getattr(st, "_on_open_position"), [o], {})
+                for out in explore(mk, 32):
+                    key = f"{ptype}|{kind}|{cname}"
+                    if out.kind != "return":
+                        rep.violation(rid, f"open-exit|raises|{key}", f"_on_open_position raises {out.value} for a {ptype} position with {kind} {cname} the entry price")
+                        continue
+                    subs = submitted(out.interp.w)
+                    if len(subs) != 1:
+                        rep.violation(rid, f"open-exit|count|{key}", f"_on_open_position submits {len(subs)} orders for one declared {kind} row ({ptype}, {cname} the entry price)")
+                        continue
+                    a = subs[0].attrs
+                    closing = S["sell"] if sg > 0 else S["buy"]
+                    probs = []
+                    if a.get("reduce_only") is not True:
+                        probs.append("not reduce-only")
+                    if a.get("side") != closing:
+                        probs.append(f"side {a.get('side')} is not the closing side")
+                    if not (isinstance(a.get("qty"), R) and abs(out.interp.numeric(a["qty"], smp)) == smp["q"]):
+                        probs.append(f"quantity {a.get('qty')!r} is not the declared {smp['q']}")
+                    if probs:
+                        rep.violation(rid, f"open-exit|reduce-only-closing-qty|{ptype}|{kind}", f"exit declared before the open ({ptype}, {kind} {cname} the entry price): " + "; ".join(probs))
+                    if near(pv):
+                        et = "MARKET"
+                    elif (pv > CUR) == (sg > 0):
+                        et = "LIMIT"
+                    else:
+                        et = "STOP"
+                    price_ok = isinstance(a.get("price"), R) and out.interp.numeric(a["price"], smp) == pv
+                    if a.get("type") != T[et] or not price_ok:
+                        tname = [k for k, v in T.items() if v == a.get("type")]
+                        # the order that jesse's 'validation' substitutes: an immediate market close at the current price
+                        replaced = a.get("type") == T["MARKET"] and isinstance(a.get("price"), R) and out.interp.numeric(a["price"], smp) == CUR
+                        rep.violation(rid, "open-exit|market-replacement" if replaced else f"open-exit|routing|{key}",
+                                      f"exit declared before the open ({ptype}, {kind} at a price {cname} the entry = current price): submitted as {tname} at "
+                                      f"{a.get('price')!r}, the routing rule gives {et} at the declared price")
+                    rep.instance(rid, key, {"type": repr(a.get("type")), "price": repr(a.get("price")), "reduce_only": a.get("reduce_only")})
+    rep.floor(rid, 36)
+
+
 def check_close_and_cancel(repo, rep):
     rid = "C10-R6"
     rep.rule(rid, "nothing survives a close: _on_close_position -> _execute_cancel -> broker.cancel_all_orders -> "
@@ -380,6 +440,7 @@ def run(repo: Repo, rep, tier: str):
     rep.guarded(check_threshold, repo, rep)
     rep.guarded(check_modifications, repo, rep)
     rep.guarded(check_open_position_tags, repo, rep)
+    rep.guarded(check_open_position_exits, repo, rep)
     rep.guarded(check_close_and_cancel, repo, rep)
     rep.undecided_item("one-to-one correspondence of active exits to declaration rows after arbitrary interleavings of user hooks (the replace discipline is decided per call)")
 
@@ -393,7 +454,9 @@ CLAIM = {
             "have the type the property prescribes, exactly |q| on the right side at exactly p (market: current price), reduce-only "
             "for exits. is_price_near's threshold and inclusive boundary are checked. _detect_and_handle_entry_and_exit_modifications "
             "is interpreted with resting tagged exits: a changed declaration cancels exactly the old orders of that kind and submits "
-            "one tagged order per new row; _on_open_position tags its exits; _execute_cancel cancels everything and clears all "
+            "one tagged order per new row; _on_open_position tags its exits and - for every relation of a pre-declared exit price to the "
+            "entry price - submits one reduce-only closing order of the declared quantity (its replacement of wrong-side exits by an "
+            "immediate market close is a recorded known finding); _execute_cancel cancels everything and clears all "
             "declaration fields; the entry-cancel guard in _check is the stated conjunction.",
     "note": "Trusted: interpreter semantics; price cases are concrete witnesses of the ordinal/boundary cells of |1-p/cur| vs 0.00015.",
 }
